@@ -1471,11 +1471,7 @@ class C14(Prop):
         for tag, d, m in fails:
             sig = None
             ms = tabs[d]["ms"] if d in tabs else []
-            if (tag in ("maximal", "sorted", "count") and d in tabs and table_columns(tabs[d]) == tabs[d]["n"]
-                    and not any(f in tabs[d]["names"] for f in (out["sel"] or []))):
-                # O41 (fixed by /repo 0e1ef11): as many rows as columns of the association table
-                sig = "rows_equal_measure_columns_selects_nothing"
-            elif tag == "error" and out["err"] == "internal":
+            if tag == "error" and out["err"] == "internal":
                 msg = out.get("err_msg") or ""
                 if "UnboundLocalError" in msg and any(
                         sum(1 for k in t["ms"] if k in ("chi2", "cramerv", "tschuprowt")) >= 2 for t in tabs.values()):
@@ -1503,6 +1499,11 @@ class C14(Prop):
                 sig = "multi_measure_union_correlated_pair"
             elif tag == "table" and "modalities counted on the whole columns" in m:
                 sig = "chi2_modalities_counted_on_incomplete_rows"
+            if (sig is None and tag in ("maximal", "sorted", "count") and d in tabs
+                    and table_columns(tabs[d]) == tabs[d]["n"]
+                    and not any(f in tabs[d]["names"] for f in (out["sel"] or []))):
+                # O41 (fixed by /repo 0e1ef11): as many rows as columns of the association table
+                sig = "rows_equal_measure_columns_selects_nothing"
             res.append(sig)
         return res
 
